@@ -737,6 +737,10 @@ pub fn replay(scn: &ServerScenario) -> Vec<(String, String, usize)> {
 // C17: multi-drop discipline
 // ---------------------------------------------------------------------------------------------
 
+fn apps_dense() -> AppSpec {
+    AppSpec::dense()
+}
+
 fn c17_unit_maps() -> Vec<Vec<(u8, AppSpec)>> {
     let apps = app_variants();
     vec![
@@ -870,6 +874,33 @@ pub fn check_c17(tier: &str) -> i32 {
     // of the two threads at the handler-mutex acquisitions (cooperative scheduler of C19)
     let st = crate::checks::ffi::c17_contended_broadcast();
     rep.phase("broadcast write while an application thread holds a handler lock (all schedules)", st, json!({"units": [1, 2, 9]}));
+    // RTU frames arriving back to back in one read: what stands behind a broadcast (or behind a
+    // frame for somebody else) is processed like any other frame
+    let mut sjobs: Vec<(ServerCfg, String, Vec<u8>)> = vec![];
+    for units in [vec![(1u8, apps_dense())], vec![(1, apps_dense()), (2, apps_dense())]] {
+        let cfg = ServerCfg { rtu: true, units, auth: None, decode: (0, 0, 0) };
+        let f = |unit: u8, p: &[u8]| pdu::rtu_frame(unit, p);
+        let bw6 = f(0, &[6, 0, 3, 0x12, 0x34]);
+        let bw5 = f(0, &[5, 0, 2, 0xFF, 0x00]);
+        let bw16 = f(0, &write_multi_pdu(16, 4, 2, 4, &[0, 7, 0, 8]));
+        let bw15 = f(0, &write_multi_pdu(15, 1, 3, 1, &[5]));
+        let brd = f(0, &read_pdu(3, 0, 2));
+        let other = f(9, &[6, 0, 1, 0, 1]);
+        let rd = f(1, &read_pdu(3, 0, 6));
+        let wr = f(1, &[6, 0, 9, 0xAB, 0xCD]);
+        let rd2 = f(cfg.units.last().unwrap().0, &read_pdu(3, 3, 2));
+        for (bn, b) in [("bcast-fc6", &bw6), ("bcast-fc5", &bw5), ("bcast-fc16", &bw16), ("bcast-fc15", &bw15), ("bcast-read", &brd), ("other-unit", &other)] {
+            for (an, a) in [("read", &rd), ("write", &wr), ("read-last-unit", &rd2), ("bcast-fc6", &bw6)] {
+                sjobs.push((cfg.clone(), format!("{bn}+{an}"), [b.clone(), a.clone()].concat()));
+                sjobs.push((cfg.clone(), format!("{an}+{bn}+{an}"), [a.clone(), b.clone(), a.clone()].concat()));
+            }
+        }
+    }
+    let sbound = crate::checks::framing::ChunkBound { uniform: true, max_cuts: 1, full_cuts_up_to: 64, all_partitions_up_to: 0 };
+    let st = parallel(sjobs.len(), |i, st| {
+        crate::checks::framing::server_stream_job("C17", &sjobs[i].0, &sjobs[i].1, &sjobs[i].2, sbound, st);
+    });
+    rep.phase("RTU frames back to back in one read: broadcasts and frames for other units followed by further frames", st, json!({"streams": sjobs.len()}));
     for c in ["broadcast-write", "broadcast-read", "unconfigured-unit", "write-ok", "read-ok", "write-exception", "mutual-exclusion-observed"] {
         rep.require_class(c);
     }
